@@ -76,6 +76,10 @@ def reference(case, X, y, S, spec, th_cov, th_mean, Q):
         mu = Kqx @ alpha + mq
         cov = Kqq - Kqx @ sla.solve(Kxx, Kqx.T, assume_a="sym")
     scale_mu = np.abs(mq) + np.abs(Kqx) @ np.abs(alpha) + 1e-300
+    # the mean function is evaluated at coordinates centred on the training centroid: each carries eps*|x| times the slope /
+    # curvature coefficients, at the query directly and at the training points through K_qx K^-1
+    amp = 1.0 + np.abs(Kqx) @ np.abs(np.linalg.inv(Kxx)) @ np.ones(n)
+    scale_mu = scale_mu + 1e9 * gc.mean_roundoff(case["mean"], th_mean, X, Q) * amp
     return {"mu": mu, "cov": cov, "Kqq": Kqq, "scale_mu": scale_mu, "alpha": alpha}, kappa
 
 
@@ -212,6 +216,7 @@ def body_relations(case, ctx):
     mx = rk.ref_mean(case["mean"], X, X, th_mean)
     Kqx = rk.ref_call(spec, Q, X, th_cov, n)
     scale_mu = np.abs(rk.ref_mean(case["mean"], X, Q, th_mean)) + np.abs(Kqx) @ np.abs(gp.alpha) + 1e-300
+    scale_mu = scale_mu + 1e9 * gc.mean_roundoff(case["mean"], th_mean, X, Q) * (1.0 + np.abs(Kqx) @ np.abs(np.linalg.inv(rk.ref_build(spec, X, th_cov) + S)) @ np.ones(n))
     prior_var = np.maximum(np.diag(rk.ref_call(spec, Q, Q, th_cov, n)), 1e-300)
     r1 = np.max(np.abs(mu - mu2) / (f * scale_mu))
     r2 = np.max(np.abs(cov - cov2) / (f * np.sqrt(np.outer(prior_var, prior_var))))
